@@ -153,7 +153,7 @@ def _imtlg(sp, m, perm):
         else:
             ok = eq_all([x for r in rows for x in r], [x for r in Gp for x in r])
             res = [[X[perm[i]][perm[j]] for j in range(m)] for i in range(m)]
-        if not z3.is_true(z3.simplify(ok)) and sp.check(z3.Not(ok)) != "unsat":
+        if not sp.proved(ok):
             raise symx.ShimUnsupported("IMTL-G harness: pinv called on something else than the Gramian")
         return T(res, A.dtype)
     torch.KERNELS["pinv"] = pinv
